@@ -46,12 +46,13 @@ ELEMS = ['el_gen_move', 'el_gen_dtor', 'el_cb_ctor', 'el_cb_dtor']
 
 # ---------------------------------------------------------------------------------------------------------------- bounded drives
 D_GLOBALS = {'FRAME_KIND': 'g_frame_kind', 'G_OBS': 'g_obs', 'G_NOBS': 'g_nobs', 'G_END': 'g_end', 'G_EXC_N': 'g_exc_n', 'G_EXC_AT': 'g_exc_at', 'G_EXC_VAL': 'g_exc_val',
-             'G_NMV': 'g_nmv', 'G_OTHER_EXC': 'g_other_exc', 'G_CTOR': 'g_ctor', 'G_DTOR': 'g_dtor', 'G_ARG_SRC': 'g_arg_src', 'G_ARG_VAL': 'g_arg_val', 'G_NARGS': 'g_nargs'}
+             'G_NMV': 'g_nmv', 'G_OTHER_EXC': 'g_other_exc', 'G_CTOR': 'g_ctor', 'G_DTOR': 'g_dtor', 'G_ARG_SRC': 'g_arg_src', 'G_ARG_VAL': 'g_arg_val', 'G_NARGS': 'g_nargs',
+             'G_XEXC_VAL': 'g_xexc_val', 'G_XEXC_AT': 'g_xexc_at', 'G_FIN_DONE': 'g_fin_done', 'G_FIN_BOOL': 'g_fin_bool', 'G_PRE_VAL': 'g_pre_val', 'G_PRE_OK': 'g_pre_ok', 'G_AGAIN': 'g_again'}
 D_LIBS = ['rt_core.c', 'rt_atomic_seq.c', 'model_atomic_ptr_api.c', 'model_dq_drive.c', 'model_heap_frames.c', 'model_mutex.c', 'model_vec_pool.c', 'model_ptrq_ring.c']
 AGG_FRAME = {'void': 'S__ZN5cocls20generator_aggregatorIivEENS_9generatorIT_T0_EESt6vectorIS4_SaIS4_EE_Frame', 'int': 'S__ZN5cocls20generator_aggregatorIiiEENS_9generatorIT_T0_EESt6vectorIS4_SaIS4_EE_Frame'}
 def drive(name, kind, what, arg='void', defines=(), unwind=10, timeout=600, **kw):
     G, CB, N = VAR[arg]
-    root = 'drive_aggr_arg' if arg == 'int' else 'drive_aggr'
+    root = 'drive_aggr_arg' if arg == 'int' else ('drive_aggr_t' if kind == 'aggr_t' else 'drive_aggr')
     frames = 'CV_FRAME_KINDS ' + ('X(3, S_src_arg_Frame) X(5, %s)' % AGG_FRAME['int'] if arg == 'int' else 'X(1, S_src_vals_Frame) X(2, S_src_throw_Frame) X(4, %s)' % AGG_FRAME['void'])
     d = dict(name='drive_' + name, driver=DRV, roots=['^%s$' % root] + [N[e] for e in ELEMS], names={e: N[e] for e in ELEMS}, names_opt={m: N[m] for m in MODELS},
              types={'CH': CHT, 'DQCH': DQT, 'ATOMB': 'std::atomic<bool>', 'ATOM_AW': 'std::atomic<cocls::awaiter *>', 'ATOM_FU': 'std::atomic<cocls::future<int> *>', 'AWT': 'cocls::awaiter', 'FUT': 'cocls::future<int>'},
@@ -68,6 +69,15 @@ def sh(n, style=0, stop=-1, src=()):
         f += [1, int(x[1:])] if isinstance(x, str) else [0, x]
     return '{%d,%d,%d,%s}' % (n, style, stop, ','.join(str(v) for v in f))
 def shapes(*l): return 'AGG_SHAPES ' + ', '.join(l)
+def sht(n, style=0, pre=0, src=()):
+    """one shape of DRIVE aggr_t (several throwers, consumer goes on after an exception): src as in sh(); pre = 1: source 0 already stepped once"""
+    f = []
+    for x in list(src) + [0] * (3 - len(src)):
+        f += [1, int(x[1:])] if isinstance(x, str) else [0, x]
+    return '{%d,%d,%d,%s}' % (n, style, pre, ','.join(str(v) for v in f))
+# native replays (audit E): D4 two throwing sources; W1 the aggregate after its exception
+RP_TWO = dict(src='c14_two_throwers.cpp', mode='two_throwers', flags=['-g'])
+RP_AFTER = dict(src='c14_two_throwers.cpp', mode='after_exception', flags=['-g'])
 def text(l): return ', '.join(l)
 UNITS = [
     drive('n01_next', 'aggr', 'no source; 1 synchronous source of length 0, 1, 2; symbolic values; consumer: next()/value()',
@@ -82,6 +92,13 @@ UNITS = [
     drive('throw_n2_a', 'aggr', '2 sources, the first throws after 0, 1, 2 values, the other yields 2', defines=[shapes(sh(2, src=['t0', 2]), sh(2, src=['t1', 2]), sh(2, src=['t2', 2]))]),
     drive('throw_n2_b', 'aggr', '2 sources, the second throws after 0, 1, 2 values, the other yields 2 / 1 / 0', defines=[shapes(sh(2, src=[2, 't0']), sh(2, src=[1, 't1']), sh(2, src=[0, 't2']))]),
     drive('throw_n3', 'aggr', '3 sources, one throws: (2,t1,1) (t2,0,2) by next()/value(), (1,1,t0) by call-to-future', defines=[shapes(sh(3, src=[2, 't1', 1]), sh(3, src=['t2', 0, 2]), sh(3, 1, src=[1, 1, 't0']))], unwind=12),
+    # --- audit E: D4 (several throwing sources, per-source oracle), W1 (the consumer goes on after the exception), W6 (shapes)
+    drive('after_exc', 'aggr_t', 'the consumer goes on after the exception: 1 thrower alone (t1), 1 thrower + a source of 2 (t1,2) and (2,t0) by next()/value(), (t1,1) by call-to-future; one regular shape (1,1) as control',
+          defines=[shapes(sht(1, src=['t1']), sht(2, src=['t1', 2]), sht(2, src=[2, 't0']), sht(2, 1, src=['t1', 1]), sht(2, src=[1, 1]))], replay=RP_AFTER),
+    drive('throw2_a', 'aggr_t', 'TWO throwing sources, per-source oracle: (t1,t1) (t0,t2) by next()/value(), (t1,t0) by call-to-future', defines=[shapes(sht(2, src=['t1', 't1']), sht(2, src=['t0', 't2']), sht(2, 1, src=['t1', 't0'])), 'AGG_NO_AFTER_CLAUSE 1'], replay=RP_TWO),
+    drive('throw2_b', 'aggr_t', 'TWO throwing sources next to a regular one: (t1,t2,2) (2,t0,t1); THREE throwing sources (t1,t0,t1); next()/value()', defines=[shapes(sht(3, src=['t1', 't2', 2]), sht(3, src=[2, 't0', 't1']), sht(3, src=['t1', 't0', 't1'])), 'AGG_NO_AFTER_CLAUSE 1'], unwind=12, replay=RP_TWO),
+    drive('prestep', 'aggr_t', 'source 0 already stepped once by the consumer before it is handed to the aggregator: (2) (2,2) (1,2) (1,0) by next()/value(), (2,1) by call-to-future',
+          defines=[shapes(sht(1, pre=1, src=[2]), sht(2, pre=1, src=[2, 2]), sht(2, pre=1, src=[1, 2]), sht(2, pre=1, src=[1, 0]), sht(2, 1, pre=1, src=[2, 1]))]),
     drive('early_n2', 'aggr', '2 sources of length 2, aggregate destroyed after 0..4 values (never started / parked at a yield)', defines=[shapes(*[sh(2, stop=t, src=[2, 2]) for t in range(5)])]),
     drive('early_n13', 'aggr', '1 source of length 2 destroyed after 1, 2 values; 3 sources (2,2,2) destroyed after 1 and after 4 values; 2 sources (1,2) after 2 values by call-to-future',
           defines=[shapes(sh(1, stop=1, src=[2]), sh(1, stop=2, src=[2]), sh(3, stop=1, src=[2, 2, 2]), sh(3, stop=4, src=[2, 2, 2]), sh(2, 1, stop=2, src=[1, 2]))], unwind=12),
@@ -127,14 +144,14 @@ UNITS = HELPERS + UNITS
 
 META = dict(
     level='other',
-    level_text='BOUNDED, not a proof: the statement lives inside the coroutine body of generator_aggregator, which no contract reaches; it is decided by bounded symbolic execution of the really lowered generator_aggregator<int,void> / <int,int> coroutine (clang -O0 lowering, ir2c devirtualised resume) together with the real generator.h / queue.h / future.h / awaiter.h code, for 0..3 scripted SYNCHRONOUS sources of length <= 2 (lists of shapes per unit, see units[].bound; values symbolic in their low 24 bits, the top byte tags the yield they come from), one source may throw a symbolic exception after 0..2 values, consumer by next()/value() and by call-to-future, aggregate dropped after 0..4 values. Checked per shape: the consumer observes exactly the multiset union (every yielded value exactly once, nothing else), each source\'s values in that source\'s order, the end when and only when all sources have ended (one end indication), a source\'s exception loses no value of any source and is reported exactly once after everything else, the first argument initialises every source and each later argument reaches the source whose value was returned last, dropping the aggregate before its first activation / while parked at a yield destroys every activated source\'s locals exactly once, allocations == deallocations (frames + the two vector buffers), the aggregator never parks on queue.pop() with synchronous sources, the callback vector never reallocates. PROVED (contracts, unbounded) only for the helpers: the resume function of GenCallback pushes its own callback onto its own queue exactly once and resumes nobody; the GenCallback constructor wires queue / generator / that function; charge() asks the callback\'s own generator once with the callback as asker (argument installed first); ~generator_aggregator_controller performs exactly count-1 blocking pops of its queue for EVERY count (loop contract), fin() and operator bool keep the active-source counter.',
-    level_note='Not covered: asynchronous sources (a source suspended on another awaitable, completing on another thread or later on this thread), hence also "waits for in-flight asynchronous sources" beyond the controller contract, the single-consumer awaiter slot of cocls::queue, infinite sources, more than 3 sources or more than 2 values per source, several exceptions (only the last one is kept by the code), value types other than int. Shapes are sampled, not exhaustive for n = 3. Trusted: models of std::vector (typed pool, no growth; real element constructors/destructors), std::queue<GenCallback*> (FIFO ring), single_item_queue (obligation: stays empty), std::mutex, std::deque of the ready queue, std::atomic<T*> members, typed frame allocation.',
+    level_text='BOUNDED, not a proof: the statement lives inside the coroutine body of generator_aggregator, which no contract reaches; it is decided by bounded symbolic execution of the really lowered generator_aggregator<int,void> / <int,int> coroutine (clang -O0 lowering, ir2c devirtualised resume) together with the real generator.h / queue.h / future.h / awaiter.h code, for 0..3 scripted SYNCHRONOUS sources of length <= 2 (lists of shapes per unit, see units[].bound; values symbolic in their low 24 bits, the top byte tags the yield they come from), sources may throw a symbolic exception after 0..2 values (one thrower with a consumer that stops at the exception; one, two or three throwers - each with a payload of its own - with a consumer that goes on after every exception), a source may have been stepped once by the consumer before it is handed over, consumer by next()/value() and by call-to-future, aggregate dropped after 0..4 values. Checked per shape: the consumer observes exactly the multiset union (every yielded value exactly once, nothing else), each source\'s values in that source\'s order, the end when and only when all sources have ended (one end indication), a source\'s exception loses no value of any source and is reported - PER SOURCE: the payload of every throwing source reaches the consumer exactly once, nothing else is reported (clause C14-FINDING-two-throwers; OPEN known finding, see level_note) -, after the last value / exception the aggregate is finished, says so and gives the consumer that goes on exactly one end indication (C13 after-exception clause seen through the aggregate; fails on the unchanged generator.h, repaired by specs/C13/fix_after_exception.diff), the first argument initialises every source and each later argument reaches the source whose value was returned last, dropping the aggregate before its first activation / while parked at a yield destroys every activated source\'s locals exactly once, allocations == deallocations (frames + the two vector buffers), the aggregator never parks on queue.pop() with synchronous sources, the callback vector never reallocates. PROVED (contracts, unbounded) only for the helpers: the resume function of GenCallback pushes its own callback onto its own queue exactly once and resumes nobody; the GenCallback constructor wires queue / generator / that function; charge() asks the callback\'s own generator once with the callback as asker (argument installed first); ~generator_aggregator_controller performs exactly count-1 blocking pops of its queue for EVERY count (loop contract), fin() and operator bool keep the active-source counter.',
+    level_note='Not covered: asynchronous sources (a source suspended on another awaitable, completing on another thread or later on this thread), hence also "waits for in-flight asynchronous sources" beyond the controller contract, the single-consumer awaiter slot of cocls::queue, infinite sources, more than 3 sources or more than 2 values per source, value types other than int. OPEN KNOWN FINDING (audit E, D4; marker C14-FINDING-two-throwers, units drive_throw2_a / drive_throw2_b, native replay replay/c14_two_throwers.cpp two_throwers): the statement says "a source\'s exception ... is reported to the consumer" - for every source; the aggregator keeps ONE std::exception_ptr and overwrites it at every caught exception (`exp = std::current_exception();`), so with two or more throwing sources only the exception caught last is reported, the others vanish silently (the former oracle allowed at most one thrower - copied from the code). No small repair: a generator can hand over a single exception, at its end; reporting several needs a design decision (collect / nest them in one exception - which changes the type a consumer catches -, or another reporting channel); keeping the first instead of the last loses just as many. NOT COVERED (audit E, D5): a source that is already FINISHED (exhausted, or ended by an exception) when it is handed to the aggregator - outside the statement\'s scripted source generators, which are fresh (or, unit drive_prestep, parked at a yield). The aggregator mishandles it (auditor\'s native reproducer c14_scenarios exhausted_first / exhausted_last): charge() throws no_more_values_exception outside the try block of the loop; as the first source, ~generator_aggregator_controller then waits for ever for sources that were never charged (hang); as a later source the exception ends the aggregate at once and the values of the other sources are lost. Shapes are sampled, not exhaustive for n = 3. Trusted: models of std::vector (typed pool, no growth; real element constructors/destructors), std::queue<GenCallback*> (FIFO ring), single_item_queue (obligation: stays empty), std::mutex, std::deque of the ready queue, std::atomic<T*> members, typed frame allocation.',
     technique='bounded symbolic execution with CBMC 6.11 (unwinding assertions, every shape run with a concrete control path) of driver scenarios over the C translation of the clang-lowered generator_aggregator coroutine and everything it calls; CBMC code contracts + one loop contract via goto-instrument --dfcc for the helper members',
     trusted_base=['std::vector<generator>, std::vector<GenCallback> = three pointers over a typed static pool, no reallocation (pinned elements: obligation), elements built and destroyed by the real translated functions (lib/model_vec_pool.c)',
                   'std::queue<GenCallback*> = bounded FIFO ring, accesses under the queue mutex (lib/model_ptrq_ring.c, lib/model_mutex.c); single_item_queue<promise<GenCallback*>> = always empty, parking is a failed obligation (specs/C14/drive_models.h)',
                   'std::atomic<T*> members read sequentially at member-function level (lib/model_atomic_ptr_api.c); std::deque<coroutine_handle<>> = FIFO ring (lib/model_dq_drive.c); operator new/delete with typed coroutine frames (lib/model_heap_frames.c)',
                   'contract units: queue::push / queue::pop / future::wait / ~future / next_awt::subscribe / suspend_now as recording stubs (specs/C14/a_spec.h)'],
-    assumptions=['bounded: <= 3 synchronous sources, <= 2 values each, at most one throwing source, <= 5 consumer steps; single thread; sampled shapes for 3 sources',
+    assumptions=['bounded: <= 3 synchronous sources, <= 2 values each, <= 3 throwing sources, <= 10 consumer steps; single thread; sampled shapes for 3 sources and for several throwers',
                  'observed values are attributed to yields by a tag in the top byte (low 24 bits symbolic)',
                  'ctl_dtor: the controller counter equals the number of active sources (that is the body\'s bookkeeping, exercised only by the drives)'],
     explanation='see level_text')
